@@ -281,6 +281,16 @@ static Plan generate(uint64_t seed, uint64_t run, const std::map<std::string, st
   return p;
 }
 
+// snapshot text with one field removed
+static std::string without_field(const std::string& snap, const char* name) {
+  std::string key = std::string("\x1f") + name + "=";
+  size_t p = snap.find(key);
+  if (p == std::string::npos) return snap;
+  size_t e = snap.find('\x1f', p + 1);
+  if (e == std::string::npos) e = snap.size();
+  return snap.substr(0, p) + snap.substr(e);
+}
+
 // expected observations, computed sequentially
 static std::vector<StepObs> seq_expected(const std::vector<Op>& ops, int ut) {
   return ut == 0 ? run_history<ada::url>(ops) : run_history<ada::url_aggregator>(ops);
@@ -340,6 +350,9 @@ static Result execute(const Plan& p, Stats& st) {
   if (!mode_b) {
     g_yield_fn = nullptr;
     g_spin_fn = nullptr;
+    // A previous TA run leaves the sticky state FAILED behind: forget it, otherwise the
+    // reference below would itself be computed without tables.
+    if (table_state() != 2) ada::idna::verif_reset_tables();
     (void)ada::idna::to_ascii("\xc3\xa9");  // make sure the tables are unpacked
     for (int t = 0; t < n; t++) exp_ok[t] = seq_expected(tops[t], ut[t]);
     if (ta) {
@@ -472,10 +485,15 @@ static Result execute(const Plan& p, Stats& st) {
         bool later_timeout = false;
         for (size_t j = 0; j <= i; j++) later_timeout |= recs[t].steps[j].timed_out;
         res.violation = true;
-        if (later_timeout) {
+        if (later_timeout && recs[t].spin_fired > 0) {
+          // the waiter really was starved for >= 1e9 iterations (injected spin-clock jump): known finding F3
           res.vclass = "starvation-timeout";
           res.sig = std::string("spin-cap:") + kOpKindName[tops[t][i].kind];
           st.add("starvation_timeouts");
+        } else if (later_timeout) {
+          // the spin loop gave up although nobody was starved (e.g. a lowered cap under a bounded stall)
+          res.vclass = "spurious-timeout";
+          res.sig = std::string("no-starvation:") + kOpKindName[tops[t][i].kind];
         } else {
           res.vclass = ta ? "wrong-result-under-alloc-failure" : "wrong-result";
           res.sig = std::string(kOpKindName[tops[t][i].kind]) + (sr.used_tables ? ":tables" : ":notables");
@@ -493,6 +511,13 @@ static Result execute(const Plan& p, Stats& st) {
           const Op& op = tops[t][i];
           char s = exp_fail[t][i].status;
           bool is_failure_report = s == 'F' || (op.kind == OP_IDNA && (op.sub == I_LABEL_VALID || op.sub == I_NAME_CP || op.sub == I_TO_UNICODE));
+          // get_origin() of a blob: URL parses the inner URL and has no failure channel of its own:
+          // "null" is how it reports that the nested parse failed. Everything else must be equal.
+          if (!is_failure_report && snap_field(exp_fail[t][i].text.substr(2), "origin") == "null" &&
+              without_field(exp_fail[t][i].text, "origin") == without_field(exp_ok[t][i].text, "origin")) {
+            st.add("ta.origin_null_reports");
+            is_failure_report = true;
+          }
           if (!is_failure_report) {
             res.violation = true;
             res.vclass = "alloc-failure-not-reported";
